@@ -7,7 +7,7 @@ emitter of DeleteRowSet also emits DeleteDV (paired tombstones).
 Does not decide: content of replayed records, vacuum of directories."""
 import re
 
-from tmpl import site, suffix, pl_fields, done_sites, local_defs
+from tmpl import site, suffix, pl_fields, done_sites, local_defs, region_callees
 
 SEC = 'storage::secondary::'
 BOOT = SEC + 'storage::<impl storage::secondary::SecondaryStorage>::bootstrap'
@@ -130,6 +130,8 @@ def run(ctx):
                     others = {tgt for vv, tgt in arms.items() if vv != 'DropTable'} | {i}
                     region = cb.reachable_from([arms['DropTable']], avoid=others)
                     made = {st['rv']['variant'] for bb, st in cb.aggregates(MOP) if bb in region}
+                    for _, hb in region_callees(prog, cb, region):      # the arm, or part of it, moved into a helper
+                        made |= {st['rv']['variant'] for _, st in hb.aggregates(MOP)}
                     if 'DeleteRowSet' in made:
                         emit.setdefault(cb.root + '·DropTable-arm', set()).update(made)
     dels = {r: v for r, v in emit.items() if 'DeleteRowSet' in v}
